@@ -18,21 +18,22 @@ import (
 )
 
 type Config struct {
-	Workers      int
-	TimeoutMs    int
-	MaxPreempts  int
-	MaxSteps     int64
-	MaxFanout    int
-	MaxPaths     int64
-	Solver       string
-	CrossSolvers []string
-	Tier         int
-	Seed         int64
-	LogDir       string
-	Trace        bool
-	IntMode      bool
-	MaxWitness   int
-	MaxWallS     int
+	Workers       int
+	TimeoutMs     int
+	MaxPreempts   int
+	CollisionFree bool
+	MaxSteps      int64
+	MaxFanout     int
+	MaxPaths      int64
+	Solver        string
+	CrossSolvers  []string
+	Tier          int
+	Seed          int64
+	LogDir        string
+	Trace         bool
+	IntMode       bool
+	MaxWitness    int
+	MaxWallS      int
 }
 
 type Engine struct {
@@ -80,9 +81,9 @@ type Violation struct {
 type CexVal struct {
 	Kind  string `json:"kind"`
 	Label string `json:"label,omitempty"`
-	Hex   string `json:"hex,omitempty"` // bytes / uf
+	Hex   string `json:"hex,omitempty"`  // bytes / uf
 	Args  string `json:"args,omitempty"` // uf: argument bytes
-	Int   string `json:"int,omitempty"` // decimal for scalars / big
+	Int   string `json:"int,omitempty"`  // decimal for scalars / big
 }
 
 type Witness struct {
@@ -128,12 +129,12 @@ type goPanic struct {
 }
 
 type Worker struct {
-	id     int
-	e      *Engine
-	tb     *TB
-	solver *Solver
-	cross  []*Solver
-	consts map[*ssa.Const]Value
+	id      int
+	e       *Engine
+	tb      *TB
+	solver  *Solver
+	cross   []*Solver
+	consts  map[*ssa.Const]Value
 	vars    map[int][]int
 	alone   map[int]SatResult
 	scratch *Solver
